@@ -19,7 +19,7 @@ from harness.common.framework import CorrResult, VERIF
 
 PROP_ID = "C20"
 COQ_PROPS = "theories/Props/C20.v"
-COQ_EXTRA = ["gen/C20_gen.v", "gen/C20_schema.v"]
+COQ_EXTRA = ["gen/C20_gen.v", "gen/C20_schema.v", "gen/C20_records.v"]
 EXTRACT = ("theories/Extract/ExC20.v", "c20_driver.ml")
 EXTRACT_Z = True
 TRUSTED = [
@@ -394,7 +394,14 @@ Proof. intros turbo payload l st Hl Hr. exact (xfer_done_iff turbo live_max_chun
         f.write(src)
     from harness.translate import c20_schema as cs
     nk, nt = cs.emit(os.path.join(VERIF, "coq", "gen", "C20_schema.v"))
-    return [{"name": "gen/C20_gen.v: 4 <= MAX_CHUNK_SIZE (=%d) and the xfer theorems instantiated at it" % m, "detail": "live value"},
+    from harness.translate import c20_records as cr
+    info = cr.emit(os.path.join(VERIF, "coq", "gen", "C20_records.v"))
+    rec_obls = [{"name": "gen/C20_records.v: wf_schema(live %s) = true and record_roundtrip instantiated at it" % c,
+                 "detail": "field order/kinds/defaults/include_none/llsd_only read from dataclasses.fields + metadata"} for c in info["classes"]]
+    rec_obls += [{"name": "gen/C20_records.v: %s lookup names round-trip for all %d members except %s (vm_compute on tables obtained by "
+                          "calling to_lookup_name/from_lookup_name)" % (en, n, exc or "none"), "detail": "exhaustive"}
+                 for en, (n, exc) in info["enums"].items()]
+    return rec_obls + [{"name": "gen/C20_gen.v: 4 <= MAX_CHUNK_SIZE (=%d) and the xfer theorems instantiated at it" % m, "detail": "live value"},
             {"name": "gen/C20_schema.v: %d live schema keys satisfy key_ok, %d live lookup-name tokens satisfy val_ok" % (nk, nt),
              "detail": "dataclasses.fields of InventoryItem/Category/Object/Permissions/SaleInfo + lookup tables"}]
 
@@ -533,6 +540,140 @@ def correspond_schema(ctx):
     return res
 
 
+def correspond_records(ctx):
+    """(B) typed records: real to_str / from_reader of the live dataclasses vs the extracted model at the generated schemas"""
+    from harness.translate import c20_records as cr
+    from harness.translate import c20_codecs as cc
+    from hippolyzer.lib.base.datatypes import UUID
+    import io
+    rng = ctx.rng
+    res = CorrResult(suite="typed schema records: real to_str/from_reader vs extracted model at the live schemas",
+                     rule="generated InventoryItem/Category/Object nodes (enum sweep with all/no optional fields + random subsets; 20%% "
+                          "pushed outside the text domain: leading blanks, '|' in strings) and stand-alone permissions/sale_info "
+                          "blocks: model to_lines (schema generated from the live dataclass) must equal the lines of the real "
+                          "to_str(); the lines after the header, as written and perturbed (a line dropped/duplicated/moved, blank and "
+                          "unknown-key lines inserted), go through the real Cls.from_reader and the model from_lines (record, lines "
+                          "left in the reader, or exception); whenever the model says dom=true the real round trip must give an equal "
+                          "object; str(int)/'%%08x'/str(UUID) and int() on digit strings against the digit-conversion model. "
+                          "non-trivial = distinct driver line")
+    classes = cr._classes()
+    schemas = [cr.live_schema(c) for c in classes]
+    idx = {c.__name__: i for i, c in enumerate(classes)}
+    lines, impl, cases = [], [], []
+    pending_dom = []
+    stats = {"objects": 0, "reader-cases": 0, "in-dom": 0}
+
+    def add(line, want, case):
+        lines.append(line)
+        impl.append(want)
+        cases.append(case)
+
+    objs = []
+    last_body = {}
+    root = "00000000-0000-0000-0000-000000000000"
+    for nodes in cc.gen_models(rng, "text", ctx.pick(60, 1500)):
+        for n in nodes:
+            if rng.random() < 0.2:
+                n = dict(n)
+                n["name"] = rng.choice((" lead", "a|b", "\x0btab", "")) + (n.get("name") or "")
+            try:
+                objs.append(cc.node_from_spec(n))
+            except Exception:
+                pass
+    for o in list(objs):
+        if getattr(o, "permissions", None) is not None and rng.random() < 0.2:
+            objs.append(o.permissions)
+        if getattr(o, "sale_info", None) is not None and rng.random() < 0.2:
+            objs.append(o.sale_info)
+    for o in objs:
+        w = idx[type(o).__name__]
+        fields = schemas[w]
+        try:
+            rec = cr.enc_record(o, fields)
+            real_lines = cr.impl_to_lines(o)
+        except Exception as e:
+            ctx.notes.append("record generator value not encodable: %s" % type(e).__name__)
+            continue
+        stats["objects"] += 1
+        add("RW %d %s" % (w, rec), cr.enc_lines(real_lines), {"kind": "record-write", "cls": type(o).__name__, "rec": rec})
+        pending_dom.append((len(lines) - 1, o, real_lines))
+        body = real_lines[1:]
+        variants = [body + ["x"]]
+        if rng.random() < 0.5 or w not in last_body:
+            last_body[w] = body
+        for _ in range(2):
+            b = list(body)
+            r = rng.random()
+            if r < 0.3 and len(b) > 1:
+                del b[rng.randrange(len(b))]
+            elif r < 0.4:
+                i = rng.randrange(len(b))
+                b.insert(rng.randrange(len(b) + 1), b[i])
+            elif r < 0.55 and last_body.get(w):
+                # the same key twice with different values (a line of another object of the class): last one wins
+                other = [l for l in last_body[w] if l.startswith("\t\t")]
+                if other:
+                    b.insert(rng.randrange(len(b) + 1), rng.choice(other))
+            elif r < 0.7 and len(b) > 2:
+                i = rng.randrange(1, len(b) - 1)
+                l = b.pop(i)
+                b.insert(rng.randrange(1, len(b)), l)
+            else:
+                b.insert(rng.randrange(len(b) + 1), rng.choice(("", "  ", "\t\tbogus\t1", "\t\tbogus", "|", "\t\tname")))
+            variants.append(b + ["tail"] * rng.randrange(0, 3))
+        for b in variants:
+            if any("/" in l for l in b):
+                pass
+            got, _ = cr.impl_from_lines(type(o), b, fields)
+            stats["reader-cases"] += 1
+            add("RR %d %s" % (w, cr.enc_lines(b)), got, {"kind": "record-read", "cls": type(o).__name__, "lines": b})
+    # digit conversions
+    for _ in range(ctx.pick(400, 8000)):
+        z = rng.choice((0, 1, -1, 9, 10, -10, 2147483647, -2147483648, rng.randrange(-10**12, 10**12)))
+        add("I %d" % z, "%s %d" % (",".join(str(ord(c)) for c in str(z)), int(str(z))), {"kind": "int", "z": z})
+        u = rng.choice((0, 1, 2**128 - 1, 2**127, rng.getrandbits(128), rng.getrandbits(40)))
+        add("U %x" % u, "%s %x" % (",".join(str(ord(c)) for c in str(UUID(int=u))), UUID(str(UUID(int=u))).int), {"kind": "uuid", "u": "%x" % u})
+        h = rng.choice((0, 1, 0xffffffff, 0x8e000, rng.getrandbits(32), rng.getrandbits(40)))
+        add("X8 %x" % h, "%s %x" % (",".join(str(ord(c)) for c in "%08x" % h), int("%08x" % h, 16)), {"kind": "hex", "h": "%x" % h})
+        t = "".join(rng.choice("0123456789-") for _ in range(rng.randrange(0, 6)))
+        try:
+            want = str(int(t))
+        except ValueError:
+            want = "ERR"
+        add("PI " + ",".join(str(ord(c)) for c in t), want, {"kind": "parse-int", "text": t})
+    model = ctx.run_driver(lines)
+    for i, (ml, il, c) in enumerate(zip(model, impl, cases)):
+        m = ml.strip()
+        if c["kind"] == "record-write":
+            m = m.split(" ", 1)[1] if " " in m else ""
+        if m != il.strip():
+            d = {k: (v if not isinstance(v, list) else v[:12]) for k, v in c.items()}
+            d.update({"model": ml[:300], "impl": il[:300]})
+            res.disagreements.append(d)
+    # impl-level statement of the record theorem: inside the model's domain the real code round-trips
+    seen = set()
+    for i, o, real_lines in pending_dom:
+        if not model[i].startswith("dom=true"):
+            continue
+        stats["in-dom"] += 1
+        try:
+            back = type(o).from_reader(io.StringIO("".join(l + "\n" for l in real_lines[1:])))
+            ok = back == o
+            why = "differs"
+        except Exception as e:
+            ok, why = False, "EXC:" + type(e).__name__
+        if not ok and (type(o).__name__, why) not in seen:
+            seen.add((type(o).__name__, why))
+            res.impl_violations.append({"clause": "a record inside dom is read back equal from its own text",
+                                        "class": "record-text-roundtrip:%s:%s" % (type(o).__name__, why), "kind": "record-text",
+                                        "cls": type(o).__name__, "lines": real_lines})
+    res.evaluations = len(lines)
+    res.distinct_nontrivial = len(set(lines))
+    res.distribution = stats
+    res.samples = [{"line": lines[0][:160], "impl": impl[0][:160]}, {"line": lines[1][:160], "impl": impl[1][:160]}]
+    return res
+
+
 CODEC_KINDS = ("inventory", "enum", "wearable", "anim", "mesh")
 
 
@@ -542,6 +683,7 @@ def correspond(ctx):
     tcases = [c for c in corpus if c.get("kind") in ("xfer", "transfer", "xraw", "traw")]
     results.append(correspond_transfer(ctx, list(tcases) + list(gen_transfer_cases(ctx))))
     results.append(correspond_schema(ctx))
+    results.append(correspond_records(ctx))
     results.append(correspond_codecs(ctx, [c for c in corpus if c.get("kind") in CODEC_KINDS]))
     return results
 
@@ -582,6 +724,17 @@ def replay(ctx, case):
     if kind in CODEC_KINDS:
         from harness.translate import c20_codecs as cc
         return cc.replay_case(case)
+    if kind == "record-text":
+        import io
+        from harness.translate import c20_records as cr
+        cls = {c.__name__: c for c in cr._classes()}[case["cls"]]
+        body = "".join(l + "\n" for l in case["lines"])
+        try:
+            a = cls.from_reader(io.StringIO("".join(l + "\n" for l in case["lines"][1:])))
+            b = cls.from_reader(io.StringIO(a.to_str().split("\n", 1)[1]))
+            return (a != b or a.to_str() != body), {"reparsed_equal": a == b}
+        except Exception as e:
+            return True, {"exc": type(e).__name__}
     if kind == "schema-block":
         from harness.translate import c20_schema as cs
         fields = [tuple(f) for f in case["fields"]]
